@@ -155,7 +155,8 @@ def run(rep, drv):
 				q = [F(x * 64 // sum(w), 64) for x in w]; q[-1] += 1 - sum(q)
 				if any(v < 0 for v in q): continue
 				hh, bb = F(rng.randint(1, 8), 2), F(rng.randint(1, 40), 2)
-				pmf = {d: float(v) for d, v in enumerate(q)}
+				items = [(d, float(v)) for d, v in enumerate(q)]; rng.shuffle(items)
+				pmf = dict(items)
 				S, c = call(nvm.newsvendor_discrete, float(hh), float(bb), demand_pmf=pmf)
 				ys = list(range(-2, D + 4))
 				mo = drv.call('nvdiscrete', pmf=frs(q), h=fr(hh), b=fr(bb), ys=ys)
